@@ -34,3 +34,12 @@ theories/IoCache/IoProofs.vos theories/IoCache/IoProofs.vok theories/IoCache/IoP
 theories/Properties_C17.vo theories/Properties_C17.glob theories/Properties_C17.v.beautified theories/Properties_C17.required_vo: theories/Properties_C17.v theories/IoCache/IoModel.vo theories/IoCache/IoProofs.vo
 theories/Properties_C17.vio: theories/Properties_C17.v theories/IoCache/IoModel.vio theories/IoCache/IoProofs.vio
 theories/Properties_C17.vos theories/Properties_C17.vok theories/Properties_C17.required_vos: theories/Properties_C17.v theories/IoCache/IoModel.vos theories/IoCache/IoProofs.vos
+theories/Undo/UndoModel.vo theories/Undo/UndoModel.glob theories/Undo/UndoModel.v.beautified theories/Undo/UndoModel.required_vo: theories/Undo/UndoModel.v theories/IoCache/IoModel.vo
+theories/Undo/UndoModel.vio: theories/Undo/UndoModel.v theories/IoCache/IoModel.vio
+theories/Undo/UndoModel.vos theories/Undo/UndoModel.vok theories/Undo/UndoModel.required_vos: theories/Undo/UndoModel.v theories/IoCache/IoModel.vos
+theories/Undo/UndoProofs.vo theories/Undo/UndoProofs.glob theories/Undo/UndoProofs.v.beautified theories/Undo/UndoProofs.required_vo: theories/Undo/UndoProofs.v theories/IoCache/IoModel.vo theories/IoCache/IoProofs.vo theories/Undo/UndoModel.vo
+theories/Undo/UndoProofs.vio: theories/Undo/UndoProofs.v theories/IoCache/IoModel.vio theories/IoCache/IoProofs.vio theories/Undo/UndoModel.vio
+theories/Undo/UndoProofs.vos theories/Undo/UndoProofs.vok theories/Undo/UndoProofs.required_vos: theories/Undo/UndoProofs.v theories/IoCache/IoModel.vos theories/IoCache/IoProofs.vos theories/Undo/UndoModel.vos
+theories/Properties_C12.vo theories/Properties_C12.glob theories/Properties_C12.v.beautified theories/Properties_C12.required_vo: theories/Properties_C12.v theories/IoCache/IoModel.vo theories/Undo/UndoModel.vo theories/Undo/UndoProofs.vo
+theories/Properties_C12.vio: theories/Properties_C12.v theories/IoCache/IoModel.vio theories/Undo/UndoModel.vio theories/Undo/UndoProofs.vio
+theories/Properties_C12.vos theories/Properties_C12.vok theories/Properties_C12.required_vos: theories/Properties_C12.v theories/IoCache/IoModel.vos theories/Undo/UndoModel.vos theories/Undo/UndoProofs.vos
